@@ -30,12 +30,22 @@ class IOPort(BaseIOPort):
     def _open(self, **kwargs):
         LOG.append(('IOPort', self.name, dict(kwargs)))
 '''
+DEVLIST = [('a', True, False), ('b', True, True), ('c', False, True), ('d', True, True), ('b', False, True),
+           ('e', True, False), ('f', False, True), ('e', False, True), ('g', False, True), ('g', True, False)]      # e, g: separate input and output entries
 DEVICES = '''
 def get_devices(**kwargs):
     LOG.append(('get_devices', None, dict(kwargs)))
-    return [dict(name='a', is_input=True, is_output=False), dict(name='b', is_input=True, is_output=True),
-            dict(name='c', is_input=False, is_output=True), dict(name='d', is_input=True, is_output=True), dict(name='b', is_input=False, is_output=True)]
-'''
+    return [dict(name=n, is_input=i, is_output=o) for n, i, o in %r]
+''' % (DEVLIST,)
+
+
+def want_names(k):
+    """the property's statement: inputs, outputs, and the input names that are also output names, in input order"""
+    ins = [n for n, i, o in DEVLIST if i]
+    outs = [n for n, i, o in DEVLIST if o]
+    return {3: ins, 4: outs, 5: [n for n in ins if n in outs]}[k]
+
+
 SCRATCH = None
 
 
@@ -132,6 +142,9 @@ def impl(case):
                     if name:
                         if any(n != name for n in got_names):
                             fail = ('explicit-name-lost', 'open op %d with the explicit name %r constructed ports named %r' % (k, name, got_names))
+                    elif name is None and not ue:
+                        if any(n is not None for n in got_names):
+                            fail = ('environment-used', 'open op %d without a name on a backend with use_environ=False constructed ports named %r' % (k, got_names))
                     elif name is None and ue:
                         envs = {0: [tok(ei)], 1: [tok(eo)], 2: ([tok(eio)] if (native or tok(eio)) else [tok(ei), tok(eo)])}[k]
                         envs = envs * (len(got_names) // len(envs)) if envs else envs
@@ -149,7 +162,7 @@ def impl(case):
                 if getdev:
                     kws = ev[0][2]
                     out += [4, untok(kws['api']) if 'api' in kws else -1, -9]
-                    want = {3: ['a', 'b', 'd'], 4: ['b', 'c', 'd', 'b'], 5: ['b', 'd']}[k]
+                    want = want_names(k)
                     if names != want and fail is None:
                         fail = ('names', 'name listing %d gave %r, expected %r' % (k, names, want))
                 else:
@@ -214,7 +227,7 @@ def run(out):
             mido.set_backend(mname + '/' + 'tok5')
             out.evaluations += 1
             ok = all(getattr(mido, k).__self__ is mido.backend for k in saved) and mido.backend.name == mname and mido.backend.api == 'tok5' \
-                and not mido.backend.loaded and mido.get_ioport_names() == ['b', 'd'] and mido.backend.loaded
+                and not mido.backend.loaded and mido.get_ioport_names() == want_names(5) and mido.backend.loaded
             if not ok:
                 out.failures.append(('set_backend', 'set_backend did not rebind the top-level open_*/get_* functions to the chosen backend', {'component': 'set_backend'}))
             # every history of up to 4 set_backend / use steps over two modules and two APIs: after each set_backend the top-level
